@@ -119,16 +119,66 @@ Proof.
   unfold load. rewrite !Hf, Z.eqb_refl. reflexivity.
 Qed.
 
+(* get_best_epoch's fold computes the declarative best epoch: the earliest recorded epoch
+   whose metric no recorded epoch beats *)
+Definition Best (b : bool) (c : cache) (be : nat) (bm : option Z) : Prop :=
+  (c = [] /\ be = 0 /\ bm = None) \/
+  (exists r, In r c /\ r_epoch r = be /\ bm = Some (met b r) /\
+             (forall r', In r' c -> (met b r <= met b r')%Z) /\
+             (forall r', In r' c -> r_epoch r' < be -> (met b r < met b r')%Z)).
+
+Lemma best_state_snoc b c x : best_state b (c ++ [x]) = best_step b (best_state b c) x.
+Proof. unfold best_state. rewrite fold_left_app. reflexivity. Qed.
+
+Lemma best_state_spec b : forall n a c, map r_epoch c = seq a n ->
+  Best b c (fst (best_state b c)) (snd (best_state b c)).
+Proof.
+  induction n as [|n IH]; intros a c Hc.
+  - destruct c; [|discriminate]. left. repeat split.
+  - rewrite seq_snoc in Hc.
+    destruct (exists_last (l := c)) as [c' [x ->]].
+    { intros ->. cbn in Hc. destruct (seq a n); discriminate. }
+    rewrite map_app in Hc. cbn [map] in Hc. apply app_inj_tail in Hc as [Hc' Hx].
+    assert (Hlt : forall r', In r' c' -> r_epoch r' < r_epoch x).
+    { intros r' Hin. apply (in_map r_epoch) in Hin. rewrite Hc' in Hin. apply in_seq in Hin. lia. }
+    specialize (IH a c' Hc'). rewrite best_state_snoc.
+    destruct (best_state b c') as [be bm]. cbn [fst snd] in IH. unfold best_step. cbn [snd].
+    right. destruct IH as [(-> & -> & ->)|(r & Hin & Hre & -> & Hle & Hlt')].
+    + cbn [lt_inf fst snd]. exists x. repeat split; try (apply in_or_app; right; left; reflexivity).
+      * intros r' [[]|[<-|[]]]%in_app_or. lia.
+      * intros r' [[]|[<-|[]]]%in_app_or. lia.
+    + cbn [lt_inf]. destruct (Z.ltb (met b x) (met b r)) eqn:E; cbn [fst snd].
+      * apply Z.ltb_lt in E. exists x. repeat split; try (apply in_or_app; right; left; reflexivity).
+        -- intros r' [Hr'|[<-|[]]]%in_app_or; [specialize (Hle r' Hr')|]; lia.
+        -- intros r' [Hr'|[<-|[]]]%in_app_or Hlt2; [specialize (Hle r' Hr')|]; lia.
+      * apply Z.ltb_ge in E. exists r. repeat split; try assumption; try (apply in_or_app; left; exact Hin).
+        -- intros r' [Hr'|[<-|[]]]%in_app_or; [apply Hle; exact Hr'|lia].
+        -- intros r' [Hr'|[<-|[]]]%in_app_or Hlt2; [apply Hlt'; assumption|].
+           specialize (Hlt r Hin). lia.
+Qed.
+
+Lemma best_epoch_is_best b c n : map r_epoch c = seq 1 n -> is_best_b b c (best_epoch b c) = true.
+Proof.
+  intros Hc. pose proof (best_state_spec b n 1 c Hc) as H. unfold best_epoch. fold (best_state b c).
+  destruct H as [(-> & _ & _)|(r & Hin & Hre & _ & Hle & Hlt)]; [reflexivity|].
+  unfold is_best_b. destruct c as [|y t]; [destruct Hin|].
+  apply existsb_exists. exists r. split; [exact Hin|].
+  rewrite Hre, Nat.eqb_refl. cbn [andb]. apply andb_true_iff; split; apply forallb_forall; intros r' Hr'.
+  - apply Z.leb_le, Hle, Hr'.
+  - destruct (Nat.ltb (r_epoch r') (fst (best_state b (y :: t)))) eqn:E; [|reflexivity].
+    apply Nat.ltb_lt in E. cbn [negb orb]. apply Z.ltb_lt, Hlt; assumption.
+Qed.
+
 Lemma spec_accepts_model_klb P E crashes o :
   epf P -> klb P = true ->
   In o (run_schedule P E empty_disk 0 crashes) ->
-  p_last o = true /\ p_prefix (csv (final P E empty_disk 0)) o = true.
+  p_last o = true /\ p_best P o = true /\ p_prefix (csv (final P E empty_disk 0)) o = true.
 Proof.
   intros Hep Hk Hin.
   destruct (run_observes_reachable P E crashes o Hin) as (d & cn & Hre & ->).
   destruct (reach_wfh P E d cn Hre) as [n Hw].
   destruct (wfh_cache E d n Hw) as [Hc Hl].
-  split.
+  split; [|split].
   - unfold p_last. cbn [observe o_last o_hist]. rewrite Hc, Hl.
     unfold spec_last. rewrite (wfh_epochs E d n Hw), fold_max_seq.
     destruct n as [|n']; [reflexivity|].
@@ -136,6 +186,14 @@ Proof.
     apply (loads_ok_observe P E d (S n')); [exact Hw|lia|].
     apply (crash_last_and_best_loadable P E d cn Hep Hk Hre); [lia|].
     left. unfold seen_last. rewrite Hc, Hl. reflexivity.
+  - unfold p_best. cbn [observe o_best o_hist]. rewrite Hc.
+    rewrite (best_epoch_is_best (bt P) (csv d) n (wfh_epochs E d n Hw)). cbn [andb].
+    destruct (Nat.eqb (best_epoch (bt P) (csv d)) 0) eqn:E0; [reflexivity|]. cbn [orb].
+    apply Nat.eqb_neq in E0.
+    pose proof (best_epoch_le (bt P) (csv d) n (wfh_epochs E d n Hw)) as Hle.
+    apply (loads_ok_observe P E d n); [exact Hw|lia|].
+    apply (crash_last_and_best_loadable P E d cn Hep Hk Hre); [lia|].
+    right. unfold seen_best. rewrite Hc. reflexivity.
   - unfold p_prefix, prefix_b. cbn [observe o_hist].
     rewrite map_length. rewrite <- (crash_history_is_prefix P E d cn Hre).
     apply list_eqb_refl, hrow_eqb_refl.
